@@ -10,32 +10,30 @@ CLAIMED = {
          "Import relation is an oracle in the solver build (the import walk is C14, not applicable) and the real walk in native replay; cursor columns are concrete per harness (a symbolic column could not be decided), recorded spans symbolic." + COMMON_NOTE),
  "C02": ("DESIGN.md §4 C02, §9", "Override chains (length 2..3 over same file / conftest levels / plugin / third-party): one position query per harness on the real find_fixture_definition / find_fixture_or_definition_at_position with the recorded parameter / name span symbolic, plus find_references_for_definition of every link against the reference binding; decided by CBMC per arm.",
          "Chains of length <= 3, concrete generated texts, one concrete cursor column per harness." + COMMON_NOTE),
- "C03": ("DESIGN.md §4 C03, §9", "Post-parser extraction: the real analyze_file is symbolically executed on documents of a version table (parser replaced by an oracle holding the real parser's ASTs) and the recorded definitions/usages are compared record by record with a hand-written reference extraction of the documented pytest forms.",
-         "Documents are the D_* texts of kani/oracle_table.py only (decorator spellings, async, class-nested, name=, assignment style, generators, annotations, docstring layout); the parser itself is trusted (gate `oracle`); not a comparison with CPython over all sources." + COMMON_NOTE),
  "C04": ("DESIGN.md §4 C04, §9", "Cross-check of two real code paths per world: a usage is listed by find_references_for_definition(D) iff find_fixture_definition on it lands on D, no duplicates, unresolved usages nowhere; reverse index == usages after analyze_file histories; CLI unused list vs reference sets.",
-         "Worlds: shadowing, override, sibling-first and usage-above-override layouts with concrete texts; code-lens / call-hierarchy formatting (handlers) not encoded." + COMMON_NOTE),
+         "Worlds: shadowing, override, sibling-first and usage-above-override layouts; go-to-definition on a recorded usage is the call sequence find_fixture_definition performs after locating the usage; reverse-index histories use the empty text for the real analysis step; code-lens / call-hierarchy formatting (handlers) not encoded." + COMMON_NOTE),
  "C05": ("DESIGN.md §4 C05, §9", "Cross-check without reference model: for each world arm the definition picked by navigation (find_closest_definition), outgoing calls (resolve_fixture_for_file), implementation/prepare (find_fixture_or_definition_at_position) and the entry in get_available_fixtures are compared for every value of the symbolic attributes; at most one entry per name.",
          "std HashSet inside compute_available_fixtures limits worlds to one fixture name; get_imported_fixtures replaced by the import oracle." + COMMON_NOTE),
- "C06": ("DESIGN.md §4 C06, §9", "Histories of full-text versions through the real analyze_file over the parser oracle: after each 2-step history (second step chosen symbolically among three versions incl. unparsable / empty / comment-only / rename / same-name-twice) every map's records for the file equal what a FRESH index records for the latest valid version (expectation generated natively from the current tree by the real analyzer).",
-         "Histories of length 2 over a 13-version table, two files; versions outside the table and longer histories are outside the claim." + COMMON_NOTE),
- "C07": ("DESIGN.md §4 C07, §9", "Warm vs cold: after analyse / warm query / edit (symbolic choice) the answer of get_available_fixtures equals the answer after dropping every cache; closing either document (cleanup_file_cache) leaves resolution and the per-file view unchanged.",
-         "Eviction threshold (2000 files) not reachable; import-only edits need the import walk (C14) and are outside." + COMMON_NOTE),
+ "C06": ("DESIGN.md §4 C06, §9", "Histories through the real analyze_file: the first version's state is put into the index from what a fresh index records for it (generated natively from the current tree), then the REAL analyze_file re-analyses the file with a second version; every map's records for the file (definitions, reverse definition index, usages, reverse usage index, imports) must equal a fresh index on the new version. Each history is one fully concrete symbolic execution (no symbolic input: a selector over two re-analyses did not fit into 14 GB).",
+         "Second versions are restricted to the empty text and a comment-only text (cleanup of everything the first version recorded: rename/removal of fixtures, of usages, same name defined twice); second versions with real statements put a non-trivial AST under the symbolic executor and did not finish (kept under props=ATTEMPT). First versions: C_F, C_FF, C_F_MOVED, C_SCOPED, U_TG." + COMMON_NOTE),
+ "C07": ("DESIGN.md §4 C07, §9", "Warm vs cold: conftest in the index, per-file view warmed, then the REAL analyze_file removes its definitions (empty text): the warm answer of get_available_fixtures must equal the answer after dropping every cache; closing the conftest (cleanup_file_cache) leaves resolution and the per-file view unchanged.",
+         "Edits whose new text has real statements are out of solver reach (props=ATTEMPT); the eviction threshold (2000 files) is not reachable; import-only edits need the import walk (C14)." + COMMON_NOTE),
  "C08": ("DESIGN.md §4 C08, §9", "Registration-order independence: the same content built in two registration orders gives the same resolution (pairs of orders per content, attributes symbolic), plus every C01 arm that exists in several orders and the C16 order pairs.",
          "Orders are the listed pairs/arms (all 6 orders for the three-conftest chain in the thorough tier); hash-seed dependent std HashMap iteration inside cycle detection is exercised with one fixed seed only." + COMMON_NOTE),
- "C10": ("DESIGN.md §4 C10, §9", "The two SERIAL orders of {scan worker: analyze_file_fresh(F, disk)} and {didOpen: analyze_file(F, buffer)} with buffer/disk versions chosen symbolically, followed by one further change: the index must describe the buffer exactly once (compared with fresh-state expectations).",
-         "Interleavings inside an analysis are not explored (no concurrency model, same reason as C09); symlinked paths (canonicalisation) are outside (Path::canonicalize stubbed)." + COMMON_NOTE),
+ "C10": ("DESIGN.md §4 C10, §9", "The two SERIAL orders of {scan worker: analyze_file_fresh(F, disk)} and {didOpen: analyze_file(F, buffer)} followed by one further change: the index must describe the buffer exactly once (compared with fresh-state expectations); the state before the real call is seeded from the fresh-index data.",
+         "The text handed to the REAL call is the empty / comment-only text (non-trivial ASTs are out of solver reach): open(buffer with definitions and a usage) then scan(empty disk file), and scan(disk with definitions) then open(empty buffer). Interleavings inside an analysis are not explored (no concurrency model, same reason as C09); symlinked paths are outside (Path::canonicalize stubbed)." + COMMON_NOTE),
  "C11": ("DESIGN.md §4 C11, §9", "Panic-freedom of the string/offset kernels applied to untrusted or stale data, decided by CBMC over symbolic bytes (any valid UTF-8 up to 3-4 bytes, template classes with multi-byte characters, symbolic alphabets) and unconstrained offsets; Rust's own panics, bounds and overflow checks are the assertion.",
          "Library kernels only (extract_word_at_position, parameter_has_annotation, format_docstring, line index arithmetic, get_function_param_insertion_info, position queries on stale spans, completion text fallback); text lengths as stated per harness." + COMMON_NOTE),
  "C12": ("DESIGN.md §4 C12, §9", "Lock discipline: the sequential DashMap stand-in asserts in every write-locking operation that no guard of the same map is live on the calling path (shard-independent statement) — active in every harness of every family; termination: unwinding assertions on compute_fixture_cycles over cyclic dependency graphs and on the conftest walk.",
          "Single-threaded paths only (no lock-order inversion across threads); import-graph cycles need the import walk (C14)." + COMMON_NOTE),
- "C15": ("DESIGN.md §4 C15, §9", "Recorded positions: line-index arithmetic against its specification for every sorted index (<= 4 lines) and offset; find_function_name_position on def-line templates; usage spans recorded by the real analyzer for non-ASCII prefixes (UTF-16 expectation) and string-literal forms, compared with hand-computed token spans.",
-         "Positions as recorded by the library; Range construction and selection ranges in handlers are outside." + COMMON_NOTE),
+ "C15": ("DESIGN.md §4 C15, §9", "Recorded positions, kernels only: line-index arithmetic (get_line_from_offset / get_char_position_from_offset) against its specification for every strictly increasing index (<= 4 lines) and every offset; find_function_name_position on def-line templates (plain, async, indented, tab) compared with the true token span.",
+         "The spans the analyzer records for usages (UTF-16 columns, string-literal forms) need analyze_file on non-trivial ASTs and are out of solver reach (harnesses kept under props=ATTEMPT; the defects they show natively are listed in DESIGN.md §9.4); Range construction in handlers is outside." + COMMON_NOTE),
  "C16": ("DESIGN.md §4 C16, §9", "Cycle and scope-mismatch diagnostics of the real detect_fixture_cycles / detect_scope_mismatches_in_file against a reference dependency graph whose edges are resolved per depending file; all 25 scope pairs and definition lines symbolic per graph arm; both registration orders.",
          "<= 3 fixture names, <= 3 definitions per arm (std HashMap/HashSet cost); one fixed hash seed." + COMMON_NOTE),
- "C17": ("DESIGN.md §4 C17, §9", "Undeclared-fixture scan through the real analyze_file (parser oracle) on a document using a visible fixture in six expression positions next to a parameter, an invisible fixture, an unknown name, a module-level name and a local: findings compared exactly with the hand-written expectation; insertion point + derived edit on signature templates compared with the expected edited text; panic-freedom of the insertion scan over a symbolic alphabet.",
-         "One scan document, template signatures; the code-action handler's own text search is outside." + COMMON_NOTE),
- "C18": ("DESIGN.md §4 C18, §9", "Completion context classification of the real get_completion_context for cursor lines of a table document (AST path via parser oracle) and of incomplete documents (text fallback), chosen by symbolic selector; offered set: get_available_fixtures vs navigation per world arm (shared with C05).",
-         "Filter/sort helpers in src/providers/completion.rs (binary crate, tower-lsp types) are not encoded; documents outside the table are outside." + COMMON_NOTE),
+ "C17": ("DESIGN.md §4 C17, §9", "Quick-fix half: get_function_param_insertion_info + the edit the completion provider derives from it on signature templates (no parameter, one parameter, method, async + annotation, multi-line) compared with the expected edited text; panic-freedom and position sanity of the insertion scan over a one-line file of 5 symbolic ASCII bytes (6-symbol alphabet) and symbolic function_line.",
+         "The undeclared-fixture scan itself (warning half) runs over function-body ASTs and is out of solver reach (harness kept under props=ATTEMPT); the code-action handler's own text search is outside." + COMMON_NOTE),
+ "C18": ("DESIGN.md §4 C18, §9", "Offered set: for each world arm the per-file view get_available_fixtures has at most one entry per name and that entry is the definition navigation resolves to (shared with C05; symbolic lines, import bit, third-party-is-plugin flag); completion context of the incomplete documents produced while typing (text fallback of get_completion_context): `def test_x(`, a fixture signature after a comma, `@pytest.mark.usefixtures(`, a non-test helper.",
+         "get_completion_context on VALID documents walks the AST and is out of solver reach (harnesses kept under props=ATTEMPT); filter/sort helpers in src/providers/completion.rs (binary crate) are not encoded." + COMMON_NOTE),
  "C20": ("DESIGN.md §4 C20, §9", "Library half: get_unused_fixtures lists D iff D is not third-party, not autouse and find_references_for_definition(D) is empty, each (file, name) once, sorted — decided per world arm with autouse flags symbolic.",
          "Text/JSON rendering and exit codes (src/main.rs) not encoded; <= 3 definitions per world (std HashMap<(PathBuf,String)> cost)." + COMMON_NOTE),
 }
@@ -45,6 +43,7 @@ try:
 except Exception:
     READY = set()
 NOT_APPLICABLE = {
+ "C03": "the property is about what the analyzer extracts from a parsed file; the rustpython AST is a tree of data-carrying enums (unions with pointers for CBMC): every node read is non-constant, the analyzer explores every statement/expression kind at every node and the recursive drop glue of the tree alone does not finish — measured: analyze_file on a 3-line fixture file > 14 min / > 8 GB, on an empty or comment-only file 40 s. Only trivial ASTs are within reach, which says nothing about extraction (harnesses kept under props=ATTEMPT, see DESIGN.md §9.2)",
  "C09": "needs interleavings at map-operation granularity of two running analyses; Kani/CBMC execute one thread and no thread-aware solver for Rust is installed; re-sequencing cut-up pieces by hand would be a model, not the real code",
  "C13": "the decision logic is written inline in the WalkDir loop of scan_workspace_with_excludes (FFI directory walking, cannot be stubbed at the needed granularity); the only callable kernel does not decide the property",
  "C14": "transitive import closure runs over the file system and the parser at every node and through std HashSet/SipHash; with both replaced by oracles nothing of the real logic remains within solver reach",
@@ -82,7 +81,7 @@ def main():
             "guard": "pytest_language_server_verif",
             "enable": "RUSTFLAGS=\"--cfg pytest_language_server_verif\" (set by ./check for the solver build; the harness crate mounts /repo/src/** by #[path])",
             "baseline_off_cmd": "cd /repo && cargo nextest run --workspace --no-fail-fast --tool-config-file pb:/w/lib/nextest.toml --profile pb --test-threads 8 --offline",
-            "source_commits": ["12fd1b6"],
+            "source_commits": ["12fd1b6", "7a5d2c5"],
             "add_only": True,
         },
         "engines": [
